@@ -2,6 +2,15 @@
 # pre-commit gate for /verif: the registered setup_cmd must build, the manifest must validate, no sorry in imported files
 set -e
 cd "$(dirname "$0")/.."
+# the generated model files must be what the translator produces from /repo (a dev run against a mutated tree may have left others)
+python3 - <<'PY'
+import sys
+sys.path.insert(0, ".")
+from harness import translate as tr
+info = tr.regenerate("/repo", "lean/CnvVerif/Generated")
+if info.get("changed"):
+    print("generated files differ from the committed lock:", info.get("changed")); sys.exit(1)
+PY
 ( cd lean && flock .lake/verif.lock lake build CnvVerif Main CnvVerif.Props.All 2>&1 | grep -E "^error|✖|build failed" && exit 1 || true )
 python3-vt - <<'PY'
 import json, jsonschema
